@@ -98,15 +98,15 @@ def oracle(prop, run):
         if len(r) > 4 and r[1] in ("TASK_NOT_READY", "WORKER_NOT_READY"):
             not_ready.setdefault(r[4], []).append(int(r[0]))
 
-    if prop == "C01":
+    if prop in ("C01", "C04"):
         for e in mon:
             if e["ev"] == "place":
                 if not e["ok"]:
-                    yield ("C01 resident-demand-exceeds-capacity", {"event": e})
+                    yield (f"{prop} resident-demand-exceeds-capacity", {"event": e})
                 if e["elsewhere"]:
-                    yield ("C01 task-resident-on-two-workers", {"event": e})
+                    yield (f"{prop} task-resident-on-two-workers", {"event": e})
             if e["ev"] == "remove" and e["idle"] and e["avail"] != e["capacity"]:
-                yield ("C01 idle-worker-not-at-full-capacity", {"event": e})
+                yield (f"{prop} idle-worker-not-at-full-capacity", {"event": e})
     if prop == "C02":
         for t, evs in starts.items():
             if len(evs) > 1:
@@ -216,6 +216,58 @@ def oracle(prop, run):
                     bad = [lab for lab, t in tasks.items() if t["state"] not in ("COMPLETED", "CANCELLED")]
                     if bad:
                         yield (f"C05 work-conserving-run-left-tasks-unfinished policy={pol['name']}", {"tasks": bad[:5]})
+    ended_idle = obs["err"] is None and bool([r for r in rows if r[1] == "SIMULATOR_END" and int(r[0]) < flags["loop_timeout"]])
+    if prop == "C06":
+        LEGAL = {("VIRTUAL", "RELEASED"), ("RELEASED", "SCHEDULED"), ("VIRTUAL", "SCHEDULED"), ("SCHEDULED", "RUNNING"), ("RUNNING", "COMPLETED"),
+                 ("SCHEDULED", "VIRTUAL"), ("SCHEDULED", "RELEASED"), ("VIRTUAL", "CANCELLED"), ("RELEASED", "CANCELLED"), ("SCHEDULED", "CANCELLED")}
+        last = {}
+        for e in mon:
+            if e["ev"] != "transition":
+                continue
+            if (e["pre"], e["post"]) not in LEGAL:
+                yield (f"C06 illegal-transition {e['pre']}->{e['post']} via={e['via']}", {"event": e})
+            if e["t"] in last and last[e["t"]] != e["pre"]:
+                yield ("C06 state-changed-outside-the-task-api", {"event": e, "expected_pre": last[e["t"]]})
+            last[e["t"]] = e["post"]
+        for lab, t in tasks.items():
+            if lab in last and last[lab] != t["state"]:
+                yield ("C06 state-changed-outside-the-task-api", {"task": lab, "last_seen": last[lab], "final": t["state"]})
+        if ended_idle:
+            cancel_rows = {r[4] for r in rows if len(r) > 4 and r[1] == "TASK_CANCEL"}
+            for lab, t in tasks.items():
+                if t["state"] == "CANCELLED":
+                    if lab not in cancel_rows:
+                        yield ("C06 cancelled-task-not-reported", {"task": lab})
+                    for c in t["children"]:
+                        ct = tasks[c]
+                        doomed = (not ct["terminal"]) or all(tasks[q]["state"] == "CANCELLED" for q in ct["parents"])
+                        if doomed and ct["state"] != "CANCELLED":
+                            yield ("C06 descendant-of-cancelled-task-not-cancelled", {"task": lab, "child": c, "child_state": ct["state"]})
+            fin_rows = {r[2] for r in rows if r[1] == "TASK_GRAPH_FINISHED"}
+            for g in obs["graphs"]:
+                sinks_done = bool(g["sinks"]) and all(tasks[x]["state"] == "COMPLETED" for x in g["sinks"])
+                if sinks_done != (g["name"] in fin_rows):
+                    yield ("C06 graph-finished-row-iff-all-sinks-completed-broken", {"graph": g["name"], "sinks_completed": sinks_done})
+    if prop == "C07" and ended_idle:
+        for lab, t in tasks.items():
+            if t["conditional"] and t["state"] == "COMPLETED" and t["children"]:
+                kids = [tasks[c] for c in t["children"]]
+                fin_at = next((i for i, e in enumerate(mon) if e["ev"] == "finish" and e["t"] == lab), None)
+                if fin_at is None or any(e["ev"] == "transition" and e["post"] == "CANCELLED" and e["t"] in t["children"] for e in mon[:fin_at]):
+                    continue  # a policy cancelled a branch head before the conditional completed (its probability becomes 0)
+                # the branch taken = the children released (a policy may cancel it again later)
+                live = sorted({e["t"] for e in mon if e["ev"] == "release" and e["t"] in t["children"]})
+                if all(k["job_probability"] <= 0 for k in kids):
+                    if live:
+                        yield ("C07 child-released-with-all-zero-probabilities", {"conditional": lab, "live": live})
+                    continue
+                if len(live) != 1:
+                    yield ("C07 not-exactly-one-branch-taken", {"conditional": lab, "live": live})
+                elif tasks[live[0]]["job_probability"] <= 0:
+                    yield ("C07 zero-probability-branch-taken", {"conditional": lab, "child": live[0]})
+        for t_, evs in starts.items():
+            if tasks.get(t_, {}).get("state") == "CANCELLED":
+                yield ("C07 cancelled-task-was-started", {"task": t_})
     if prop == "C18":
         for e in mon:
             if e["ev"] != "offer":
